@@ -799,6 +799,28 @@ func init() {
 									missing = append(missing, p)
 								}
 							}
+							// a copy: the object was filled by a whole-struct copy of another URL (the companions came along)
+							// and this store replaces the field by a copy made from the same field of that URL
+							if len(missing) > 0 {
+								if al, isAl := fa.X.(*ssa.Alloc); isAl {
+									var src ssa.Value
+									for _, r := range *al.Referrers() {
+										if ws, ok := r.(*ssa.Store); ok && ws.Addr == ssa.Value(al) {
+											if ld, ok := ws.Val.(*ssa.UnOp); ok && ld.Op == token.MUL && namedOf(ld.X.Type()) == "Url" {
+												src = ld.X
+											}
+										}
+									}
+									if src != nil {
+										or := map[string]bool{}
+										cloneOrigins(st.Val, "Url", al, map[ssa.Value]bool{}, or)
+										if len(or) == 1 && or[fld] {
+											s.OK(key, c.P.Pos(st.Pos()), "a copy of the same field of the URL the whole object was copied from: the companions came along with the struct copy")
+											continue
+										}
+									}
+								}
+							}
 							s.Check(len(missing) == 0, key, c.P.Pos(st.Pos()), "stored together with "+strings.Join(present, ", "), "stores "+fld+" without "+strings.Join(missing, ", ")+": the cached value goes stale")
 						}
 					}
